@@ -78,7 +78,12 @@ Definition spec_step (sel : nat) (ct : ctable) (h0 : list obj) (pre post : graph
            (xo : xop) (fa : option nat) (out : list Z) : nat :=
   match xo with
   | XSame x y a =>
-      if aval_eqb (abs_g post (field_of post x a)) (abs_g post (field_of post y a)) then 0 else 2
+      (* both roots must be instances (the result of a call that raised is None) *)
+      match node_of post (root_val post x), node_of post (root_val post y) with
+      | Some (OInst _ _), Some (OInst _ _) =>
+          if aval_eqb (abs_g post (field_of post x a)) (abs_g post (field_of post y a)) then 0 else 2
+      | _, _ => 0
+      end
   | XOp o =>
       match fa, spec_query o pre with
       | None, Some (x, hp, h) =>
